@@ -79,6 +79,11 @@ impl Ctx {
         }
     }
 
+    /// bulk-count trivially discharged instances (examined, nothing to decide)
+    pub fn oblige_n(&mut self, rule: &str, n: usize) {
+        self.obligations.entry(rule.to_string()).or_default().0 += n;
+    }
+
     pub fn sample(&mut self, v: Value) {
         if self.samples.len() < 40 {
             self.samples.push(v);
